@@ -1,5 +1,6 @@
 import HkModel.Drive.Queue
 import HkModel.Model.Publish
+import HkModel.Model.PublishScoped
 /-! driver mode `publish`: Admin publish requests (global direct path modelled; endpoint-scoped path checked against the
     property predicate only). -/
 namespace Hk.DrivePublish
@@ -100,7 +101,7 @@ def processLine (line : String) : String :=
       s!"PROP C15 published-without-required-audit missing={(auditError ac (k == "scoped") au).getD ""} {tag}"
     else
     if k == "scoped" then
-      -- endpoint-scoped path: judged against the spec-level predicate only (its handler is not modelled step by step)
+      -- endpoint-scoped path: the spec-level predicate on the implementation's answer, then the step-by-step model
       let route := str j "route"
       let fresh := after.filter (fun m => !existing.contains m.id)
       let rj? := (arr (obj j "ctx") "routes").find? (fun r => str r "path" == route)
@@ -108,20 +109,44 @@ def processLine (line : String) : String :=
       | none => "ok"
       | some rjson =>
         let r := routeOfJson rjson
-        if status != 200 then "ok"
-        else if !scopedRouteOpen ctx r (bool rjson "managedEnabled") then s!"PROP C15 scoped-publish-on-a-route-closed-by-policy {tag}"
-        else match (List.range items.length).find? (fun i => !scopedItemValid r existing (seenBefore items i) (items.getD i default)) with
-          | some i => s!"PROP C15 scoped-invalid-item-published item={i} {tag}"
-          | none =>
-            -- the stored messages are exactly the envelopes of the items
-            let want := (items.zip itemsJ).filterMap fun p =>
-              match resolveTarget p.1.target (normTargets r.targets) with
-              | some t => match envelopeFromItem p.1 r.path t r.maxBody r.maxHeaders with
-                | .ok e => some (mkMsg now { e with headers := str p.2 "hcanon", trace := str p.2 "tcanon" })
-                | .error _ => none
-              | none => none
-            if sortMsgs want != sortMsgs fresh then s!"PROP C15 scoped-published-message-differs-from-item {tag} {firstDiff (sortMsgs want) (sortMsgs fresh)}"
-            else "ok"
+        let managedEnabled := bool rjson "managedEnabled"
+        let prop : Option String :=
+          if status != 200 then none
+          else if !scopedRouteOpen ctx r managedEnabled then some "scoped-publish-on-a-route-closed-by-policy"
+          else match (List.range items.length).find? (fun i => !scopedItemValid r existing (seenBefore items i) (items.getD i default)) with
+            | some i => some s!"scoped-invalid-item-published item={i}"
+            | none =>
+              -- the stored messages are exactly the envelopes of the items
+              let want := (items.zip itemsJ).filterMap fun p =>
+                match resolveTarget p.1.target (normTargets r.targets) with
+                | some t => match envelopeFromItem p.1 r.path t r.maxBody r.maxHeaders with
+                  | .ok e => some (mkMsg now { e with headers := str p.2 "hcanon", trace := str p.2 "tcanon" })
+                  | .error _ => none
+                | none => none
+              if sortMsgs want != sortMsgs fresh then some s!"scoped-published-message-differs-from-item {firstDiff (sortMsgs want) (sortMsgs fresh)}"
+              else none
+        match prop with
+        | some c => s!"PROP C15 {c} {tag}"
+        | none =>
+          let sc : ScopeCtx := { scopedEnabled := true, route := some r, managedEnabled := managedEnabled }
+          match scopedPreflight ctx sc ac au existing items with
+          | .reject st c idx =>
+            if st == status && c == code && idx == index then "ok"
+            else s!"DIVERGE scoped publish {tag} model=reject {st} {c} {idx}"
+          | .accept envs =>
+            let envs := (envs.zip itemsJ).map fun p => { p.1 with headers := str p.2 "hcanon", trace := str p.2 "tcanon" }
+            let stored := if status == 200 then envs.map (·.id) else []
+            let gone := (before.filter (fun m => !after.any (·.id == m.id) || stored.contains m.id)).map (·.id)
+            let refusal := match code with | "queue_full" => some Err.full | "duplicate_id" => some Err.exists_ | _ => none
+            let ch : Choice := { picks := [], gone := gone, refusal := refusal }
+            match step cfg now { msgs := before } (.enqueueBatch envs) ch with
+            | none => s!"DIVERGE scoped publish {tag} field=choice gone={gone}"
+            | some (q', rr) =>
+              let mr := respOfStore rr
+              if mr.status != status || mr.code != code || mr.index != index || mr.published != published then
+                s!"DIVERGE scoped publish {tag} model={mr.status} {mr.code} {mr.index} {mr.published}"
+              else if sortMsgs q'.msgs != after then s!"DIVERGE scoped publish {tag} field=state {firstDiff (sortMsgs q'.msgs) after}"
+              else "ok"
     else
     -- spec-level predicate on the implementation's answer
     let fi := firstInvalid ctx existing items
